@@ -37,6 +37,7 @@ REQUIRED = {
         'template-round-trips': 16,
         'kind:spline/rise': 2, 'kind:spline/curves': 2, 'kind:peatclsm/rise': 2, 'kind:peatclsm/curves': 2,
         'targeted-datasets': 1,
+        'cli-output-file-name-reused': 10,
         'spline-sets-with-10+-knots': 2,
     }
     for tier in ('quick', 'thorough')
@@ -72,6 +73,12 @@ def run_cli_to_text(ctx, argv, name):
         if exc is not None or status != 0:
             return None, (core.describe_exception(exc) if exc else {'status': status})
         return buf.getvalue(), None
+    if _CALLS[0] % 4 == 1:
+        # the same output file name used again (a PEST run, a re-run set-up script): the file
+        # must hold the output of the last run only
+        data.cli(argv + ['-o', out])
+        gc.collect()
+        ctx.rec.hit('cli-output-file-name-reused')
     status, exc = data.cli(argv + ['-o', out])
     gc.collect()
     if exc is not None or status != 0:
